@@ -315,17 +315,17 @@ Section Proofs.
     intros Hrs Hl. unfold resolve_single.
     destruct (lookup q (l_map g)) as [[r|]|] eqn:Hq.
     - intros E; injection E as <- <-; auto.
-    - intros E; injection E as <- <-. eapply logok_same_log; [apply add_diag_log| |exact Hl].
+    - intros E; injection E as <- <-. apply (logok_same_log g); [apply add_diag_log| |exact Hl].
       unfold keys. rewrite add_diag_map. auto.
     - assert (Hl0 : logok (set_map q None g)).
-      { eapply logok_same_log; [reflexivity| |exact Hl]. intros x Hx. cbn. right; exact Hx. }
+      { apply (logok_same_log g (set_map q None g)); [reflexivity| |exact Hl]. intros x Hx. cbn. right; exact Hx. }
       assert (Hnot : ~ In q (tl (l_log (set_map q None g)))).
       { cbn. intros Hin. destruct Hl as [_ [H2 _]]. apply H2 in Hin. apply lookup_none_keys in Hq. auto. }
       destruct (rs q (set_map q None g)) as [g1 [res|]] eqn:E1; intros E; injection E as <- <-.
       + pose proof (Hrs _ _ _ _ E1 Hl0 (or_introl eq_refl) Hnot) as Hl1.
-        eapply logok_same_log; [reflexivity| |exact Hl1]. intros x Hx. cbn. right; exact Hx.
+        apply (logok_same_log g1 (set_map q (Some res) g1)); [reflexivity| |exact Hl1]. intros x Hx. cbn. right; exact Hx.
       + pose proof (Hrs _ _ _ _ E1 Hl0 (or_introl eq_refl) Hnot) as Hl1.
-        eapply logok_same_log; [apply add_diag_log| |exact Hl1]. unfold keys. rewrite add_diag_map. auto.
+        apply (logok_same_log g1); [apply add_diag_log| |exact Hl1]. unfold keys. rewrite add_diag_map. auto.
   Qed.
 
   Lemma fold_resolve_single_log rs inst p line ts g ms g' ms' :
@@ -380,4 +380,441 @@ Section Proofs.
   Theorem load_missing_root (root : path) :
     lookup root (fs_files fs) = None -> load fs root = (init_l, None).
   Proof. intros Hf. unfold load, load_fuel. rewrite parse_S, Hf. reflexivity. Qed.
+
+  (* -------------------------------------------------------------------------------------------
+     the module objects form a DAG: an entry Some res is only written over the module's own placeholder,
+     and everything it refers to was finished before *)
+  Definition finished (m : list (path * option resolved)) (x : path) : Prop :=
+    exists r, lookup x m = Some (Some r).
+
+  Fixpoint wfmap (m : list (path * option resolved)) : Prop :=
+    match m with
+    | [] => True
+    | (q, None) :: t => lookup q t = None /\ wfmap t
+    | (q, Some res) :: t =>
+        lookup q t = Some None /\ (forall x, In x (flat_map snd res) -> finished t x) /\ wfmap t
+    end.
+
+  Definition edge (m : list (path * option resolved)) (q x : path) : Prop :=
+    exists res, lookup q m = Some (Some res) /\ In x (flat_map snd res).
+
+  Fixpoint rank (m : list (path * option resolved)) (q : path) : nat :=
+    match m with
+    | [] => 0
+    | (k, _) :: t => if N.eqb q k then S (length t) else rank t q
+    end.
+
+  Lemma rank_le m q : rank m q <= length m.
+  Proof.
+    induction m as [|[k v] t IH]; cbn [rank length]; [lia|]. destruct (N.eqb q k); lia.
+  Qed.
+
+  Lemma edge_child_finished m q x : wfmap m -> edge m q x -> finished m x.
+  Proof.
+    induction m as [|[k v] t IH]; intros Hwf [res [Hl Hin]]; cbn [lookup] in Hl; [discriminate|].
+    assert (Hx : finished t x /\ (forall r, lookup k t <> Some (Some r))).
+    { destruct (N.eqb_spec q k) as [->|Hne].
+      - injection Hl as ->. cbn [wfmap] in Hwf. destruct Hwf as [Hk [Hc _]]. split; [auto|]. intros r. congruence.
+      - destruct v as [r0|]; cbn [wfmap] in Hwf.
+        + destruct Hwf as [Hk [_ Hw]]. split; [apply IH; [exact Hw|exists res; auto]|]. intros r. congruence.
+        + destruct Hwf as [Hk Hw]. split; [apply IH; [exact Hw|exists res; auto]|]. intros r. congruence. }
+    destruct Hx as [[r Hr] Hk]. exists r. cbn [lookup].
+    destruct (N.eqb_spec x k) as [->|]; [exfalso; eapply Hk; eauto|exact Hr].
+  Qed.
+
+  Lemma rank_edge m q x : wfmap m -> edge m q x -> rank m x < rank m q.
+  Proof.
+    induction m as [|[k v] t IH]; intros Hwf He; [destruct He as [res [Hl _]]; discriminate|].
+    pose proof (edge_child_finished _ _ _ Hwf He) as [rx Hfx].
+    destruct He as [res [Hl Hin]]. cbn [lookup rank] in *.
+    destruct (N.eqb_spec q k) as [->|Hne].
+    - injection Hl as ->. cbn [wfmap] in Hwf. destruct Hwf as [Hk [Hc _]].
+      destruct (N.eqb_spec x k) as [->|Hxk].
+      + destruct (Hc _ Hin) as [r Hr]. congruence.
+      + pose proof (rank_le t x). lia.
+    - assert (Hw : wfmap t) by (destruct v; cbn [wfmap] in Hwf; tauto).
+      destruct (N.eqb_spec x k) as [->|Hxk].
+      + (* an older module cannot refer to k: k's entry in t is the placeholder or absent *)
+        exfalso. assert (He : edge t q k) by (exists res; auto).
+        destruct (edge_child_finished _ _ _ Hw He) as [r Hr].
+        destruct v; cbn [wfmap] in Hwf; destruct Hwf as [Hk _]; congruence.
+      + apply IH; [exact Hw|exists res; auto].
+  Qed.
+
+  Theorem wfmap_acyclic m : wfmap m -> forall q, ~ clos_trans _ (edge m) q q.
+  Proof.
+    intros Hwf q Hc.
+    assert (H : forall a b, clos_trans _ (edge m) a b -> rank m b < rank m a).
+    { induction 1 as [a b He|a b c _ IH1 _ IH2]; [apply rank_edge; auto|lia]. }
+    specialize (H _ _ Hc). lia.
+  Qed.
+
+  Definition all_finished (g : lstate) (l : list path) : Prop := forall x, In x l -> finished (l_map g) x.
+
+  Lemma finished_mono g g' x : mono g g' -> finished (l_map g) x -> finished (l_map g') x.
+  Proof. intros [k _ _ _] [r Hr]. exists r. rewrite k; congruence. Qed.
+
+  Definition rs_wf (rs : RS) : Prop :=
+    forall q g g' r, rs q g = (g', r) -> wfmap (l_map g) ->
+                     wfmap (l_map g') /\ (forall res, r = Some res -> all_finished g' (flat_map snd res)).
+
+  Lemma resolve_single_wf rs inst p line g ms q g' ms' :
+    rs_mono rs -> rs_wf rs -> wfmap (l_map g) -> all_finished g ms ->
+    resolve_single rs inst p line (g, ms) q = (g', ms') -> wfmap (l_map g') /\ all_finished g' ms'.
+  Proof.
+    intros Hm Hrs Hwf Hms. unfold resolve_single.
+    destruct (lookup q (l_map g)) as [[r|]|] eqn:Hq.
+    - intros E; injection E as <- <-. split; [exact Hwf|].
+      intros x Hx. apply in_app_or in Hx. destruct Hx as [Hx|[<-|[]]]; [auto|exists r; exact Hq].
+    - intros E; injection E as <- <-. rewrite add_diag_map. split; [exact Hwf|].
+      intros x Hx. unfold finished. rewrite add_diag_map. exact (Hms x Hx).
+    - assert (Hwf0 : wfmap (l_map (set_map q None g))) by (cbn; auto).
+      pose proof (mono_set_map_fresh q None g Hq) as Hm0.
+      destruct (rs q (set_map q None g)) as [g1 [res|]] eqn:E1; intros E; injection E as <- <-.
+      + destruct (Hrs _ _ _ _ E1 Hwf0) as [Hwf1 Hres]. pose proof (Hm _ _ _ _ E1) as Hm1.
+        assert (Hq1 : lookup q (l_map g1) = Some None).
+        { destruct Hm1 as [k _ _ _]. rewrite k; cbn; rewrite N.eqb_refl; [reflexivity|discriminate]. }
+        split.
+        * cbn [set_map l_map wfmap]. split; [exact Hq1|split; [|exact Hwf1]]. apply Hres. reflexivity.
+        * intros x Hx. apply in_app_or in Hx. destruct Hx as [Hx|[<-|[]]].
+          -- destruct (finished_mono _ _ x (mono_trans _ _ _ Hm0 Hm1) (Hms _ Hx)) as [r Hr].
+             exists r. cbn. destruct (N.eqb_spec x q) as [->|]; [congruence|exact Hr].
+          -- exists res. cbn. rewrite N.eqb_refl. reflexivity.
+      + destruct (Hrs _ _ _ _ E1 Hwf0) as [Hwf1 _]. pose proof (Hm _ _ _ _ E1) as Hm1.
+        rewrite add_diag_map. split; [exact Hwf1|].
+        intros x Hx. unfold finished. rewrite add_diag_map.
+        apply (finished_mono _ _ x (mono_trans _ _ _ Hm0 Hm1) (Hms _ Hx)).
+  Qed.
+
+  Lemma fold_resolve_single_wf rs inst p line ts g ms g' ms' :
+    rs_mono rs -> rs_wf rs -> wfmap (l_map g) -> all_finished g ms ->
+    fold_left (resolve_single rs inst p line) ts (g, ms) = (g', ms') -> wfmap (l_map g') /\ all_finished g' ms'.
+  Proof.
+    intros Hm Hrs. revert g ms. induction ts as [|q ts IH]; intros g ms Hwf Hms; cbn [fold_left].
+    - intros E; injection E as <- <-; auto.
+    - destruct (resolve_single rs inst p line (g, ms) q) as [g1 ms1] eqn:E1. intros E.
+      destruct (resolve_single_wf _ _ _ _ _ _ _ _ _ Hm Hrs Hwf Hms E1) as [H1 H2].
+      eapply IH; eauto.
+  Qed.
+
+  Lemma fold_load_import_wf rs inst p is g res g' res' :
+    rs_mono rs -> rs_wf rs -> wfmap (l_map g) -> all_finished g (flat_map snd res) ->
+    fold_left (load_import fs rs inst p) is (g, res) = (g', res') ->
+    wfmap (l_map g') /\ all_finished g' (flat_map snd res').
+  Proof.
+    intros Hm Hrs. revert g res. induction is as [|i is IH]; intros g res Hwf Hres; cbn [fold_left].
+    - intros E; injection E as <- <-; auto.
+    - destruct (load_import fs rs inst p (g, res) i) as [g1 res1] eqn:E1. intros E.
+      destruct (load_import_inv _ _ _ _ _ _ _ _ E1) as [ms [E2 ->]].
+      destruct (fold_resolve_single_wf _ _ _ _ _ _ _ _ _ Hm Hrs Hwf (fun x (H : In x []) => match H with end) E2) as [H1 H2].
+      eapply IH; [exact H1| |exact E].
+      intros x Hx. rewrite flat_map_app in Hx. apply in_app_or in Hx. destruct Hx as [Hx|Hx].
+      + eapply finished_mono; [eapply fold_resolve_single_mono; eauto|auto].
+      + cbn [flat_map snd] in Hx. rewrite app_nil_r in Hx. auto.
+  Qed.
+
+  Lemma parse_wf f : rs_wf (parse fs f).
+  Proof.
+    induction f as [|f IH]; intros q g g' r; [cbn [parse]|rewrite parse_S].
+    - intros E; injection E as <- <-. intros Hwf. split; [exact Hwf|discriminate].
+    - destruct (lookup q (fs_files fs)) as [src|].
+      + dfoldg g1 res E1. intros E; injection E as <- <-. intros Hwf.
+        assert (H0 : all_finished (add_log q g) (flat_map snd (@nil (N * list path)))) by (intros x []).
+        destruct (fold_load_import_wf _ _ _ _ _ _ _ _ (parse_mono _) IH (Hwf : wfmap (l_map (add_log q g))) H0 E1) as [H1 H2].
+        split; [exact H1|]. intros res0 E0; injection E0 as <-. exact H2.
+      + intros E; injection E as <- <-. intros Hwf. split; [exact Hwf|discriminate].
+  Qed.
+
+  Theorem load_wf (root : path) :
+    wfmap (l_map (fst (load fs root))) /\
+    (forall res, snd (load fs root) = Some res -> all_finished (fst (load fs root)) (flat_map snd res)).
+  Proof.
+    unfold load. destruct (parse fs (load_fuel fs) root init_l) as [g r] eqn:E.
+    exact (parse_wf _ _ _ _ _ E I).
+  Qed.
+
+  (* -------------------------------------------------------------------------------------------
+     the static import graph of the file system *)
+  Definition sedge (p q : path) : Prop :=
+    exists src i, lookup p (fs_files fs) = Some src /\ In i (imports_of src) /\ In q (targets fs i).
+  Definition sreach : path -> path -> Prop := clos_refl_trans _ sedge.
+  Definition scycle (root : path) : Prop := exists p, sreach root p /\ clos_trans _ sedge p p.
+
+  Lemma step_rt_trans a b c : sedge a b -> sreach b c -> clos_trans _ sedge a c.
+  Proof.
+    intros Hab Hbc. apply clos_rt_rtn1 in Hbc. induction Hbc as [|y z Hyz _ IH]; [apply t_step; exact Hab|].
+    eapply t_trans; [exact IH|apply t_step; exact Hyz].
+  Qed.
+
+  Definition static_res (src : list stmt) : resolved := map (fun i => (i_line i, targets fs i)) (imports_of src).
+
+  Lemma sedge_static p src q :
+    lookup p (fs_files fs) = Some src -> (sedge p q <-> In q (flat_map snd (static_res src))).
+  Proof.
+    intros Hf. unfold static_res. rewrite flat_map_concat_map, map_map, <- flat_map_concat_map. cbn [snd].
+    rewrite in_flat_map. split.
+    - intros [src' [i [Hf' [Hi Hq]]]]. rewrite Hf in Hf'. injection Hf' as <-. eauto.
+    - intros [i [Hi Hq]]. exists src, i. auto.
+  Qed.
+
+  (* every diagnostic of the loader is an include diagnostic *)
+  Definition incl_only (g : lstate) : Prop := forall d, In d (l_diags g) -> include_class (dg_class d) = true.
+
+  Lemma incl_only_add_diag i p line c g : include_class c = true -> incl_only g -> incl_only (add_diag i p line c g).
+  Proof.
+    intros Hc Hg. unfold add_diag. destruct (has_diag_at _ _ _); [exact Hg|].
+    intros d Hd. cbn in Hd. apply in_app_or in Hd. destruct Hd as [Hd|[<-|[]]]; auto.
+  Qed.
+
+  Definition rs_incl (rs : RS) : Prop := forall q g g' r, rs q g = (g', r) -> incl_only g -> incl_only g'.
+
+  Lemma resolve_single_incl rs inst p line g ms q g' ms' :
+    rs_incl rs -> incl_only g -> resolve_single rs inst p line (g, ms) q = (g', ms') -> incl_only g'.
+  Proof.
+    intros Hrs Hg. unfold resolve_single.
+    destruct (lookup q (l_map g)) as [[r|]|] eqn:Hq.
+    - intros E; injection E as <- <-; auto.
+    - intros E; injection E as <- <-. apply incl_only_add_diag; auto.
+    - destruct (rs q (set_map q None g)) as [g1 [res|]] eqn:E1; intros E; injection E as <- <-.
+      + exact (Hrs _ _ _ _ E1 Hg).
+      + apply incl_only_add_diag; [reflexivity|]. exact (Hrs _ _ _ _ E1 Hg).
+  Qed.
+
+  Lemma fold_resolve_single_incl rs inst p line ts g ms g' ms' :
+    rs_incl rs -> incl_only g -> fold_left (resolve_single rs inst p line) ts (g, ms) = (g', ms') -> incl_only g'.
+  Proof.
+    intros Hrs. revert g ms. induction ts as [|q ts IH]; intros g ms Hg; cbn [fold_left].
+    - intros E; injection E as <- <-; auto.
+    - destruct (resolve_single rs inst p line (g, ms) q) as [g1 ms1] eqn:E1. intros E.
+      eapply IH; [|exact E]. eapply resolve_single_incl; eauto.
+  Qed.
+
+  Lemma fold_load_import_incl rs inst p is g res g' res' :
+    rs_incl rs -> incl_only g -> fold_left (load_import fs rs inst p) is (g, res) = (g', res') -> incl_only g'.
+  Proof.
+    intros Hrs. revert g res. induction is as [|i is IH]; intros g res Hg; cbn [fold_left].
+    - intros E; injection E as <- <-; auto.
+    - destruct (load_import fs rs inst p (g, res) i) as [g1 res1] eqn:E1. intros E.
+      destruct (load_import_inv _ _ _ _ _ _ _ _ E1) as [ms [E2 ->]].
+      eapply IH; [|exact E]. eapply fold_resolve_single_incl; eauto.
+  Qed.
+
+  Lemma parse_incl f : rs_incl (parse fs f).
+  Proof.
+    induction f as [|f IH]; intros q g g' r; [cbn [parse]|rewrite parse_S].
+    - intros E; injection E as <- <-. auto.
+    - destruct (lookup q (fs_files fs)) as [src|].
+      + dfoldg g1 res E1. intros E; injection E as <- <-. intros Hg.
+        eapply fold_load_import_incl; [exact IH| |exact E1]. exact Hg.
+      + intros E; injection E as <- <-. auto.
+  Qed.
+
+  Theorem load_diags_include (root : path) : incl_only (fst (load fs root)).
+  Proof.
+    unfold load. destruct (parse fs (load_fuel fs) root init_l) as [g r] eqn:E.
+    apply (parse_incl _ _ _ _ _ E). intros d [].
+  Qed.
+
+  (* -------------------------------------------------------------------------------------------
+     without a diagnostic every import statement resolved all its targets *)
+  Definition fullmap (g : lstate) : Prop :=
+    forall q res, lookup q (l_map g) = Some (Some res) ->
+                  exists src, lookup q (fs_files fs) = Some src /\ res = static_res src.
+
+  Lemma diags_nil_mono g g' : mono g g' -> l_diags g' = [] -> l_diags g = [].
+  Proof. intros [_ _ [d Hd] _] H. rewrite Hd in H. apply app_eq_nil in H. tauto. Qed.
+
+  Definition rs_full (rs : RS) : Prop :=
+    forall q g g' r, rs q g = (g', r) -> l_diags g' = [] -> fullmap g ->
+                     fullmap g' /\ (forall res, r = Some res -> exists src, lookup q (fs_files fs) = Some src /\ res = static_res src).
+
+  Lemma resolve_single_full rs inst p line g ms q g' ms' :
+    rs_mono rs -> rs_full rs -> l_diags g' = [] -> fullmap g ->
+    resolve_single rs inst p line (g, ms) q = (g', ms') -> fullmap g' /\ ms' = ms ++ [q].
+  Proof.
+    intros Hm Hrs Hd Hg. unfold resolve_single.
+    destruct (lookup q (l_map g)) as [[r|]|] eqn:Hq.
+    - intros E; injection E as <- <-. auto.
+    - intros E; injection E as <- <-. exfalso. eapply add_diag_nonempty; eauto.
+    - destruct (rs q (set_map q None g)) as [g1 [res|]] eqn:E1; intros E; injection E as <- <-.
+      + assert (Hg0 : fullmap (set_map q None g)).
+        { intros x r. cbn. destruct (N.eqb_spec x q); [discriminate|apply Hg]. }
+        destruct (Hrs _ _ _ _ E1 Hd Hg0) as [Hg1 Hres]. split; [|reflexivity].
+        intros x r. cbn. destruct (N.eqb_spec x q) as [->|]; [|apply Hg1].
+        intros E; injection E as <-. apply Hres. reflexivity.
+      + exfalso. eapply add_diag_nonempty; eauto.
+  Qed.
+
+  Lemma fold_resolve_single_full rs inst p line ts g ms g' ms' :
+    rs_mono rs -> rs_full rs -> l_diags g' = [] -> fullmap g ->
+    fold_left (resolve_single rs inst p line) ts (g, ms) = (g', ms') -> fullmap g' /\ ms' = ms ++ ts.
+  Proof.
+    intros Hm Hrs Hd. revert g ms. induction ts as [|q ts IH]; intros g ms Hg; cbn [fold_left].
+    - intros E; injection E as <- <-. rewrite app_nil_r. auto.
+    - destruct (resolve_single rs inst p line (g, ms) q) as [g1 ms1] eqn:E1. intros E.
+      assert (Hd1 : l_diags g1 = []) by (eapply diags_nil_mono; [eapply fold_resolve_single_mono; eauto|exact Hd]).
+      destruct (resolve_single_full _ _ _ _ _ _ _ _ _ Hm Hrs Hd1 Hg E1) as [Hg1 ->].
+      destruct (IH _ _ Hg1 E) as [Hg' ->]. rewrite <- app_assoc. auto.
+  Qed.
+
+  Lemma fold_load_import_full rs inst p is g res g' res' :
+    rs_mono rs -> rs_full rs -> l_diags g' = [] -> fullmap g ->
+    fold_left (load_import fs rs inst p) is (g, res) = (g', res') ->
+    fullmap g' /\ res' = res ++ map (fun i => (i_line i, targets fs i)) is.
+  Proof.
+    intros Hm Hrs Hd. revert g res. induction is as [|i is IH]; intros g res Hg; cbn [fold_left].
+    - intros E; injection E as <- <-. rewrite app_nil_r. auto.
+    - destruct (load_import fs rs inst p (g, res) i) as [g1 res1] eqn:E1. intros E.
+      destruct (load_import_inv _ _ _ _ _ _ _ _ E1) as [ms [E2 ->]].
+      assert (Hd1 : l_diags g1 = []) by (eapply diags_nil_mono; [eapply fold_load_import_mono; eauto|exact Hd]).
+      destruct (fold_resolve_single_full _ _ _ _ _ _ _ _ _ Hm Hrs Hd1 Hg E2) as [Hg1 ->].
+      destruct (IH _ _ Hg1 E) as [Hg' ->]. cbn [map app]. rewrite <- app_assoc. auto.
+  Qed.
+
+  Lemma parse_full f : rs_full (parse fs f).
+  Proof.
+    induction f as [|f IH]; intros q g g' r; [cbn [parse]|rewrite parse_S].
+    - intros E; injection E as <- <-. intros _ Hg. split; [exact Hg|discriminate].
+    - destruct (lookup q (fs_files fs)) as [src|] eqn:Hf.
+      + dfoldg g1 res E1. intros E; injection E as <- <-. intros Hd Hg.
+        destruct (fold_load_import_full _ _ _ _ _ _ _ _ (parse_mono _) IH Hd (Hg : fullmap (add_log q g)) E1) as [H1 H2].
+        split; [exact H1|]. intros res0 E0; injection E0 as <-. exists src. auto.
+      + intros E; injection E as <- <-. intros _ Hg. split; [exact Hg|discriminate].
+  Qed.
+
+  (* C10: modules that import each other (a cycle of any length >= 1 that the root reaches) are diagnosed *)
+  Theorem cycle_diagnosed (root : path) :
+    lookup root (fs_files fs) <> None -> scycle root ->
+    exists d, In d (l_diags (fst (load fs root))) /\ include_class (dg_class d) = true.
+  Proof.
+    intros Hroot [p [Hreach Hcyc]].
+    destruct (l_diags (fst (load fs root))) as [|d ds] eqn:Hd.
+    2:{ exists d. split; [left; reflexivity|]. apply (load_diags_include root). rewrite Hd. left; reflexivity. }
+    exfalso.
+    destruct (load_wf root) as [Hwf Hmain].
+    unfold load in *. destruct (parse fs (load_fuel fs) root init_l) as [g r] eqn:E. cbn [fst snd] in *.
+    destruct (parse_full _ _ _ _ _ E Hd) as [Hfull Hres]; [intros x r0; discriminate|].
+    destruct (lookup root (fs_files fs)) as [rsrc|] eqn:Hf; [|congruence].
+    assert (Hr : r = Some (static_res rsrc)).
+    { unfold load_fuel in E. rewrite parse_S, Hf in E. revert E. dfoldg g1 res1 E1. intros E; injection E as <- <-.
+      destruct (Hres _ eq_refl) as [src' [Hs ->]]. congruence. }
+    subst r. specialize (Hmain _ eq_refl).
+    (* finished modules: static edges are edges of the module map, and lead to finished modules *)
+    assert (Hstep : forall a b, finished (l_map g) a -> sedge a b -> edge (l_map g) a b /\ finished (l_map g) b).
+    { intros a b [ra Ha] Hab. destruct (Hfull _ _ Ha) as [src [Hsf ->]].
+      assert (He : edge (l_map g) a b) by (exists (static_res src); split; [exact Ha|apply (sedge_static a src b Hsf); exact Hab]).
+      split; [exact He|eapply edge_child_finished; eauto]. }
+    assert (Hroot1 : forall b, sedge root b -> finished (l_map g) b).
+    { intros b Hb. apply Hmain. apply (sedge_static root rsrc b Hf). exact Hb. }
+    assert (Hplus : forall a b, clos_trans _ sedge a b -> (finished (l_map g) a \/ a = root) -> finished (l_map g) b).
+    { intros a b H. apply clos_trans_t1n in H. induction H as [a b Hab|a b c Hab _ IH]; intros Ha.
+      - destruct Ha as [Ha| ->]; [apply (Hstep a b Ha Hab)|auto].
+      - apply IH. left. destruct Ha as [Ha| ->]; [apply (Hstep a b Ha Hab)|auto]. }
+    assert (Hp : finished (l_map g) p).
+    { apply clos_rt_rt1n in Hreach. inversion Hreach as [|b c Hb Hrest]; subst.
+      - apply (Hplus p p Hcyc). right; reflexivity.
+      - apply (Hplus root p); [|right; reflexivity].
+        apply clos_rt1n_rt in Hrest. apply clos_rt_rtn1 in Hrest.
+        clear - Hb Hrest. induction Hrest as [|y z Hyz _ IH]; [apply t_step; exact Hb|].
+        eapply t_trans; [exact IH|apply t_step; exact Hyz]. }
+    assert (Hmap : forall a b, clos_trans _ sedge a b -> finished (l_map g) a -> clos_trans _ (edge (l_map g)) a b).
+    { intros a b H. apply clos_trans_t1n in H. induction H as [a b Hab|a b c Hab _ IH]; intros Ha.
+      - apply t_step. apply (Hstep a b Ha Hab).
+      - destruct (Hstep a b Ha Hab) as [He Hb]. eapply t_trans; [apply t_step; exact He|apply IH; exact Hb]. }
+    exact (wfmap_acyclic _ Hwf p (Hmap _ _ Hcyc Hp)).
+  Qed.
+
+  (* -------------------------------------------------------------------------------------------
+     an acyclic graph whose files all exist is loaded without any diagnostic *)
+  Section Acyclic.
+    Variable root : path.
+    Definition closed : Prop := forall p q, sreach root p -> sedge p q -> lookup q (fs_files fs) <> None.
+    Hypothesis Hclosed : closed.
+    Hypothesis Hacyc : ~ scycle root.
+
+    Definition pending_in (g : lstate) (anc : list path) : Prop :=
+      forall x, lookup x (l_map g) = Some None -> In x anc.
+
+    Definition rs_acyc (rs : RS) : Prop :=
+      forall q g g' r anc, rs q g = (g', r) -> l_oof g' = false -> l_diags g = [] ->
+        sreach root q -> lookup q (fs_files fs) <> None -> pending_in g anc -> (forall a, In a anc -> sreach a q) ->
+        l_diags g' = [] /\ r <> None /\ pending_in g' anc.
+
+    Lemma oof_false_mono g g' : mono g g' -> l_oof g' = false -> l_oof g = false.
+    Proof. intros [_ o _ _] H. destruct (l_oof g); [rewrite o in H; auto|reflexivity]. Qed.
+
+    Lemma resolve_single_acyc rs inst p line g ms t g' ms' anc :
+      rs_mono rs -> rs_acyc rs -> l_oof g' = false -> l_diags g = [] -> sreach root p -> sedge p t ->
+      pending_in g anc -> (forall a, In a anc -> sreach a p) ->
+      resolve_single rs inst p line (g, ms) t = (g', ms') -> l_diags g' = [] /\ pending_in g' anc.
+    Proof.
+      intros Hm Hrs Ho Hd Hp Hpt Hpend Hanc. unfold resolve_single.
+      destruct (lookup t (l_map g)) as [[r|]|] eqn:Ht.
+      - intros E; injection E as <- <-. auto.
+      - exfalso. apply Hacyc. exists p. split; [exact Hp|].
+        apply Hpend in Ht. apply Hanc in Ht. exact (step_rt_trans _ _ _ Hpt Ht).
+      - assert (Hreach_t : sreach root t) by (eapply rt_trans; [exact Hp|apply rt_step; exact Hpt]).
+        assert (Hft : lookup t (fs_files fs) <> None) by (exact (Hclosed p t Hp Hpt)).
+        assert (Hp0 : pending_in (set_map t None g) (t :: anc)).
+        { intros x. cbn. destruct (N.eqb_spec x t) as [->|]; [left; reflexivity|right; auto]. }
+        assert (Hanc0 : forall a, In a (t :: anc) -> sreach a t).
+        { intros a [<-|Ha]; [apply rt_refl|]. eapply rt_trans; [apply Hanc; exact Ha|apply rt_step; exact Hpt]. }
+        destruct (rs t (set_map t None g)) as [g1 [res|]] eqn:E1; intros E; injection E as <- <-.
+        + destruct (Hrs _ _ _ _ (t :: anc) E1 Ho Hd Hreach_t Hft Hp0 Hanc0) as [Hd1 [_ Hp1]].
+          split; [exact Hd1|]. intros x. cbn. destruct (N.eqb_spec x t) as [->|Hne]; [discriminate|].
+          intros Hx. destruct (Hp1 _ Hx) as [<-|Hin]; [congruence|exact Hin].
+        + exfalso. rewrite add_diag_oof in Ho.
+          destruct (Hrs _ _ _ _ (t :: anc) E1 Ho Hd Hreach_t Hft Hp0 Hanc0) as [_ [Hr _]]. congruence.
+    Qed.
+
+    Lemma fold_resolve_single_acyc rs inst p line ts g ms g' ms' anc :
+      rs_mono rs -> rs_acyc rs -> l_oof g' = false -> l_diags g = [] -> sreach root p -> (forall t, In t ts -> sedge p t) ->
+      pending_in g anc -> (forall a, In a anc -> sreach a p) ->
+      fold_left (resolve_single rs inst p line) ts (g, ms) = (g', ms') -> l_diags g' = [] /\ pending_in g' anc.
+    Proof.
+      intros Hm Hrs Ho. revert g ms. induction ts as [|t ts IH]; intros g ms Hd Hp Hts Hpend Hanc; cbn [fold_left].
+      - intros E; injection E as <- <-. auto.
+      - destruct (resolve_single rs inst p line (g, ms) t) as [g1 ms1] eqn:E1. intros E.
+        assert (Ho1 : l_oof g1 = false) by (eapply oof_false_mono; [eapply fold_resolve_single_mono; eauto|exact Ho]).
+        destruct (resolve_single_acyc _ _ _ _ _ _ _ _ _ _ Hm Hrs Ho1 Hd Hp (Hts _ (or_introl eq_refl)) Hpend Hanc E1) as [Hd1 Hp1].
+        eapply IH; eauto. intros t' Ht'. apply Hts. right; exact Ht'.
+    Qed.
+
+    Lemma fold_load_import_acyc rs inst p is g res g' res' anc :
+      rs_mono rs -> rs_acyc rs -> l_oof g' = false -> l_diags g = [] -> sreach root p ->
+      (forall i t, In i is -> In t (targets fs i) -> sedge p t) ->
+      pending_in g anc -> (forall a, In a anc -> sreach a p) ->
+      fold_left (load_import fs rs inst p) is (g, res) = (g', res') -> l_diags g' = [] /\ pending_in g' anc.
+    Proof.
+      intros Hm Hrs Ho. revert g res. induction is as [|i is IH]; intros g res Hd Hp His Hpend Hanc; cbn [fold_left].
+      - intros E; injection E as <- <-. auto.
+      - destruct (load_import fs rs inst p (g, res) i) as [g1 res1] eqn:E1. intros E.
+        destruct (load_import_inv _ _ _ _ _ _ _ _ E1) as [ms [E2 ->]].
+        assert (Ho1 : l_oof g1 = false) by (eapply oof_false_mono; [eapply fold_load_import_mono; eauto|exact Ho]).
+        destruct (fold_resolve_single_acyc _ _ _ _ _ _ _ _ _ _ Hm Hrs Ho1 Hd Hp (fun t Ht => His i t (or_introl eq_refl) Ht) Hpend Hanc E2) as [Hd1 Hp1].
+        eapply IH; eauto. intros i' t Hi' Ht. eapply His; [right; exact Hi'|exact Ht].
+    Qed.
+
+    Lemma parse_acyc f : rs_acyc (parse fs f).
+    Proof.
+      induction f as [|f IH]; intros q g g' r anc; [cbn [parse]|rewrite parse_S].
+      - intros E; injection E as <- <-. cbn. discriminate.
+      - destruct (lookup q (fs_files fs)) as [src|] eqn:Hf; [|intros _ _ _ _ H; congruence].
+        dfoldg g1 res E1. intros E; injection E as <- <-. intros Ho Hd Hq _ Hpend Hanc.
+        destruct (fold_load_import_acyc _ _ _ _ _ _ _ _ anc (parse_mono _) IH Ho (Hd : l_diags (add_log q g) = []) Hq) with (2 := E1) as [Hd1 Hp1]; auto.
+        + intros i t Hi Ht. exists src, i. auto.
+        + split; [exact Hd1|split; [discriminate|exact Hp1]].
+    Qed.
+
+    Theorem acyclic_no_diag :
+      lookup root (fs_files fs) <> None -> l_diags (fst (load fs root)) = [].
+    Proof.
+      intros Hroot. pose proof (load_fuel_ok root) as Ho.
+      unfold load in *. destruct (parse fs (load_fuel fs) root init_l) as [g r] eqn:E. cbn [fst] in *.
+      destruct (parse_acyc _ _ _ _ _ [] E Ho) as [Hd _]; auto.
+      - apply rt_refl.
+      - intros x Hx. discriminate.
+      - intros a [].
+    Qed.
+  End Acyclic.
 End Proofs.
